@@ -65,6 +65,120 @@ type FS struct {
 	Log     []FSEvent
 	// Fired counts injected faults by kind.
 	Fired map[string]int64
+
+	// Virtual file identity (what os.SameFile compares). Whether the kernel hands the inode number of a
+	// deleted, closed file to the next file created is a nondeterminism of the real file system that the
+	// simulator has to own: worlds register creations and removals, the tape decides about reuse, and
+	// os.SameFile (rewritten to simrt.SameFile) compares virtual identities. Unregistered files keep the
+	// kernel's identity.
+	byIno  map[inoKey]*Ident
+	freed  []*Ident
+	nextID int
+}
+
+type inoKey struct{ dev, ino uint64 }
+
+// Ident is the virtual identity of one file (one "inode").
+type Ident struct {
+	ID     int
+	open   int
+	linked bool
+}
+
+func keyOf(fi os.FileInfo) (inoKey, bool) {
+	if st, ok := fi.Sys().(*syscall.Stat_t); ok {
+		return inoKey{uint64(st.Dev), uint64(st.Ino)}, true
+	}
+	return inoKey{}, false
+}
+
+// RegisterCreate gives the file that was just created at path a virtual identity. With reuse it takes
+// over the identity of the most recently freed file (deleted, no open handle) when there is one - the
+// kernel recycling an inode number; it reports whether that happened.
+func (s *Sim) RegisterCreate(path string, reuse bool) bool {
+	fi, err := os.Stat(path)
+	if err != nil {
+		panic(err)
+	}
+	k, ok := keyOf(fi)
+	if !ok {
+		return false
+	}
+	s.mu.Lock()
+	defer s.mu.Unlock()
+	if s.FS.byIno == nil {
+		s.FS.byIno = map[inoKey]*Ident{}
+	}
+	id := &Ident{linked: true}
+	reused := false
+	if reuse && len(s.FS.freed) > 0 {
+		old := s.FS.freed[len(s.FS.freed)-1]
+		s.FS.freed = s.FS.freed[:len(s.FS.freed)-1]
+		id.ID = old.ID
+		reused = true
+	} else {
+		s.FS.nextID++
+		id.ID = s.FS.nextID
+	}
+	s.FS.byIno[k] = id
+	return reused
+}
+
+// RegisterRemove must be called right before the file at path is removed.
+func (s *Sim) RegisterRemove(path string) {
+	fi, err := os.Stat(path)
+	if err != nil {
+		return
+	}
+	k, ok := keyOf(fi)
+	if !ok {
+		return
+	}
+	s.mu.Lock()
+	defer s.mu.Unlock()
+	if id := s.FS.byIno[k]; id != nil {
+		id.linked = false
+		delete(s.FS.byIno, k)
+		if id.open == 0 {
+			s.FS.freed = append(s.FS.freed, id)
+		}
+	}
+}
+
+func (s *Sim) identOf(fi os.FileInfo) *Ident {
+	k, ok := keyOf(fi)
+	if !ok {
+		return nil
+	}
+	s.mu.Lock()
+	defer s.mu.Unlock()
+	return s.FS.byIno[k]
+}
+
+// simInfo is an os.FileInfo that carries the virtual identity.
+type simInfo struct {
+	os.FileInfo
+	id *Ident
+}
+
+// SameFile replaces os.SameFile.
+func SameFile(a, b os.FileInfo) bool {
+	sa, oka := a.(*simInfo)
+	sb, okb := b.(*simInfo)
+	if oka && okb && sa.id != nil && sb.id != nil {
+		return sa.id.ID == sb.id.ID
+	}
+	if oka {
+		a = sa.FileInfo
+	}
+	if okb {
+		b = sb.FileInfo
+	}
+	if (oka && sa.id != nil) != (okb && sb.id != nil) {
+		// one registered, one not: different files by construction
+		return false
+	}
+	return os.SameFile(a, b)
 }
 
 // SetPlan installs the fault plan for a path.
@@ -118,6 +232,19 @@ type File struct {
 	plan   *ReadPlan
 	off    int64 // bytes delivered through Read
 	failed bool
+	id     *Ident // virtual identity, captured at open
+}
+
+// Stat returns the handle's file info with the identity the file had when it was opened.
+func (f *File) Stat() (os.FileInfo, error) {
+	if f == nil {
+		return nil, os.ErrInvalid
+	}
+	fi, err := f.File.Stat()
+	if err != nil || f.id == nil {
+		return fi, err
+	}
+	return &simInfo{FileInfo: fi, id: f.id}, nil
 }
 
 // Open replaces os.Open in the packages that read input.
@@ -143,15 +270,31 @@ func Open(name string) (*File, error) {
 		Yield("fs.open")
 		return nil, err
 	}
+	sf := &File{File: f, path: name, plan: p}
+	if s.Opts.Mode != ModeFree {
+		if fi, err := f.Stat(); err == nil {
+			if id := s.identOf(fi); id != nil {
+				s.mu.Lock()
+				id.open++
+				s.mu.Unlock()
+				sf.id = id
+			}
+		}
+	}
 	s.fsLog("open", name, 0, 0)
 	Yield("fs.open")
-	return &File{File: f, path: name, plan: p}, nil
+	return sf, nil
 }
 
 // Stat replaces os.Stat.
 func Stat(name string) (os.FileInfo, error) {
 	fi, err := os.Stat(name)
 	if s := active.Load(); s != nil {
+		if err == nil && s.Opts.Mode != ModeFree {
+			if id := s.identOf(fi); id != nil {
+				fi = &simInfo{FileInfo: fi, id: id}
+			}
+		}
 		s.fsLog("stat", name, 0, 0)
 		Yield("fs.stat")
 	}
@@ -291,6 +434,17 @@ func (f *File) Close() error {
 	}
 	err := f.File.Close()
 	if s := active.Load(); s != nil {
+		if f.id != nil {
+			s.mu.Lock()
+			if f.id.open > 0 {
+				f.id.open--
+				if f.id.open == 0 && !f.id.linked {
+					s.FS.freed = append(s.FS.freed, f.id)
+				}
+			}
+			s.mu.Unlock()
+			f.id = nil
+		}
 		s.fsLog("close", f.path, 0, f.off)
 		Yield("fs.close")
 	}
